@@ -16,7 +16,7 @@ WHY = {
  'nil-embedded-gob-unixtime': 'serializer contract for nil embedded pointers is unspecified (json writes NULL)',
  'pluck-pointer-null': 'Scan\'s slice branch hands the element itself to database/sql; needs a second indirection through the whole branch',
  'belongsto-unscoped-replace': 'the Unscoped branches of association.go reuse the owner statement / a foreign-key pointer that is overwritten later; four related defects that want one redesign of that branch',
- 'belongsto-unscoped-replace-newtarget': 'same', 'belongsto-unscoped-replace-same': 'same', 'belongsto-unscoped-delete-unnamed': 'same',
+ 'belongsto-unscoped-replace-newtarget': 'same', 'belongsto-unscoped-references-nonprimary': 'same (the Unscoped branch compares with the target\'s primary key instead of the referenced column)', 'belongsto-unscoped-replace-same': 'same', 'belongsto-unscoped-delete-unnamed': 'same',
  'm2m-slice-replace-union': 'Replace on slices builds one NOT IN list for all owners', 'belongsto-clear-slice-other-fk': 'UpdateColumns on the owner slice writes every foreign key of the last element',
  'rescan-bytes': 'rendered fragments are re-scanned as templates in two places; needs a different composition of sub-statements',
  'close-stale-session-handle': 'Session copies PreparedStmtDB by value; a fix shares one object and changes how a public struct is used',
